@@ -149,3 +149,28 @@ Proof.
   apply (goto_after_reduce (b_gi b) (wf_no_start_in_rhs _ Hwf) (wf_rule0_lhs _ Hwf) (wf_no_eof_in_rhs _ Hwf) (wf_rule0_rhs _ Hwf)
            (wf_eof_terminal _ Hwf) (wf_productive_all _ Hwf (tables_productive _ t Ht)) t Ht).
 Qed.
+
+(* C09 from the text: the automaton the tables are built on is the canonical LR(0) collection of the grammar object read from the file *)
+From YG Require Import LR0NoDup LR0Complete.
+Lemma tables_build gi t : generate_tables gi = inr t -> build (gi_rules gi) = Some (t_aut t).
+Proof.
+  unfold generate_tables. destruct (unproductive gi); [|discriminate].
+  destruct (build (gi_rules gi)) as [aut|]; [|discriminate]. intros H. inversion H. reflexivity.
+Qed.
+
+Theorem text_canonical s b t : generate_text s = GOk b t ->
+  let g := gi_rules (b_gi b) in let aut := t_aut t in
+  items (LRBase.st aut 0) = closure g [(0, 0)] /\
+  (forall q X q', goto aut q X = Some q' -> items (LRBase.st aut q') = closure g (advance g (items (LRBase.st aut q)) X)) /\
+  (forall q it X, In it (items (LRBase.st aut q)) -> next_sym g it = Some X -> exists q', goto aut q X = Some q') /\
+  (forall i j, i < length aut -> j < length aut -> items (LRBase.st aut i) = items (LRBase.st aut j) -> i = j) /\
+  (forall q, q < length aut -> exists gamma, LASuperset.path aut 0 gamma q).
+Proof.
+  intros H g aut. pose proof (text_wf s b t H) as Hwf. pose proof (tables_build _ _ (text_tables s b t H)) as Hb. fold g aut in Hb.
+  destruct (build_canonical_edges g (wf_rule0_lhs _ Hwf) (wf_no_eof_in_rhs _ Hwf) aut Hb) as [H0 He].
+  assert (Hglen : 0 < length g).
+  { pose proof (wf_rule0_rhs _ Hwf) as Hr. fold g in Hr. unfold rhs_of in Hr. destruct (nth_error g 0) eqn:E; [|discriminate]. apply nth_error_Some. congruence. }
+  destruct (build_more g Hglen (or_intror I) aut Hb) as (_ & _ & _ & Hreach).
+  split; [exact H0|]. split; [exact He|]. split; [intros q it X Hit Hn; apply (build_goto_complete g aut q it X Hb Hit Hn)|].
+  split; [apply (proj2 (build_no_duplicate_states g aut Hb))|exact Hreach].
+Qed.
